@@ -66,7 +66,7 @@ PROPS = {
  ),
  "C06": dict(
     level="proof",
-    claim="Proof that pairwise broadcast_shape is sound and complete w.r.t. NumPy's rule (value exactly when all right-aligned pairs are equal-or-1, then the per-axis maximum) for all rank pairs up to 3x3 (thorough 4x4) and every extent - hence order independent -, idempotent, None-neutral, that the variadic form is the left fold of the pairwise rule, (c06e_assoc_enum, exhaustive: every triple of shapes of rank 1..2 with extents 1..3 held in fixed arrays) three shapes broadcast exactly when all extents per aligned axis are equal or 1, to the per-axis maximum, independently of grouping and of the operand order (all six), and broadcasting the result with an operand or with itself changes nothing, and for view::broadcast_to (source ranks 1..3 into target ranks 1..3, every stretch pattern): value exactly when each source extent is 1 or equals the right-aligned target extent, shape = target, source index inside the source shape, stretched axes read source index 0 (kept axes: proved for rank-1 sources only); associativity is decided for those triples only. (E1, constant small shapes with symbolic integer elements) view::broadcast_to and view::broadcast_arrays have the requested / common shape and read, at every index, the source element with stretched axes at 0 and prepended axes dropped; the binary ufunc view reads its operands the same way. The same view-level obligations are also decided on fixed-dimension arrays whose shape is a RUN-TIME value (std::array<size_t,R> shape pinned to the listed extents by ASSUME): the library's run-time branches (loops over len(shape), maybe-typed results that must have a value).",
+    claim="Proof that pairwise broadcast_shape is sound and complete w.r.t. NumPy's rule (value exactly when all right-aligned pairs are equal-or-1, then the per-axis maximum) for all rank pairs up to 3x3 (thorough 4x4) and every extent - hence order independent -, idempotent, None-neutral, that the variadic form is the left fold of the pairwise rule, (c06e_assoc_enum, exhaustive: every triple of shapes of rank 1..2 with extents 1..3 held in fixed arrays) three shapes broadcast exactly when all extents per aligned axis are equal or 1, to the per-axis maximum, independently of grouping and of the operand order (all six), and broadcasting the result with an operand or with itself changes nothing, and for view::broadcast_to (source ranks 1..3 into target ranks 1..3, every stretch pattern): value exactly when each source extent is 1 or equals the right-aligned target extent, shape = target, source index inside the source shape, stretched axes read source index 0 (kept axes: proved for rank-1 sources only); associativity is decided for those triples only. (E1, constant small shapes with symbolic integer elements) view::broadcast_to and view::broadcast_arrays have the requested / common shape and read, at every index, the source element with stretched axes at 0 and prepended axes dropped; the binary ufunc view reads its operands the same way. The same view-level obligations are also decided on fixed-dimension arrays whose shape is a RUN-TIME value (std::array<size_t,R> shape pinned to the listed extents by ASSUME): the library's run-time branches (loops over len(shape), maybe-typed results that must have a value). (E3 c06_bcast3_*) broadcast_arrays of a fixed-size array, a scalar and a run-time-shaped array: in every operand order no view claims a compile-time size; with scalars only the fixed size is kept.",
     note=E1_NOTE,
     technique=E1_TECH,
     e3=[dict(group="C06")],
@@ -146,7 +146,7 @@ PROPS["C07"] = dict(
 )
 PROPS["C10"] = dict(
     level="other",
-    claim="Every eager entry point under array/array (209) builds exactly one view by calling view::<its own name> with its own leading parameters in declaration order and returns eval() of that view with context, output and resolver forwarded; so the eager result is the evaluation of the lazy view the user would have built. R-EVAL: in every instantiated default evaluator the copy is output[ndindex(shape(output))[i]] = view[ndindex(shape(view))[i]] for i < ndindex(shape(view)).size(), reached only after shape(output)==shape(view), and the allocating overload resizes the result to shape(view) before the copy and returns it. R-FWD.defaults: a defaulted leading parameter of an eager wrapper has the default of the lazy view's parameter at the same position. (E1 c10b_eval, constant small shapes with symbolic elements) the arrays returned by array::transpose / reshape / tile / subtract (broadcast) / concatenate / sum / broadcast_to / matmul have the view's shape and, at every index, the element the operation's definition gives - this exercises the default evaluator's copy loop and result-buffer choice end to end for fixed results. (E3 c10_result_*) for reshape-to-a-clipped-shape / transpose / add / reshape / flatten over run-time-size sources, the buffer of the array type the eager resolver allocates (row- and column-major) can hold fewer elements than its capacity whenever the view has no compile-time size.",
+    claim="Every eager entry point under array/array (209) builds exactly one view by calling view::<its own name> with its own leading parameters in declaration order and returns eval() of that view with context, output and resolver forwarded; so the eager result is the evaluation of the lazy view the user would have built. R-EVAL: in every instantiated default evaluator the copy is output[ndindex(shape(output))[i]] = view[ndindex(shape(view))[i]] for i < ndindex(shape(view)).size(), reached only after shape(output)==shape(view), and the allocating overload resizes the result to shape(view) before the copy and returns it. R-FWD.defaults: a defaulted leading parameter of an eager wrapper has the default of the lazy view's parameter at the same position. (E1 c10b_eval, constant small shapes with symbolic elements) the arrays returned by array::transpose / reshape / tile / subtract (broadcast) / concatenate / sum / broadcast_to / matmul have the view's shape and, at every index, the element the operation's definition gives - this exercises the default evaluator's copy loop and result-buffer choice end to end for fixed results. (E3 c10_result_*) for reshape-to-a-clipped-shape / transpose / add / reshape / flatten over run-time-size sources, the buffer of the array type the eager resolver allocates (row- and column-major) can hold fewer elements than its capacity whenever the view has no compile-time size. (E3 c10_elem_*) for add of mixed element types over raw / fixed / hybrid / dynamic operands in both orders, the array the legacy resolver (default of na::eval) and the eager resolver allocate has the view's element type.",
     note=E2_NOTE,
     technique=E2_TECH,
     e1=[dict(tu="c10b_eval.cpp")],
@@ -159,7 +159,7 @@ PROPS["C10"] = dict(
 )
 PROPS["C14"] = dict(
     level="other",
-    claim="Every leaf functor callable (52) forwards its argument pack unchanged to view::<own name>; every functional:: object (126) binds the callable/op of its own name with the operand arity of the oracle table; the 73 ufunc aliases bind the op type of the same name; get_function_t<view X> hands back functional::X; the order facts of the functor machinery (R-ORDER: functors of f precede those of g in f*g, a functor's result precedes the operands still curried, leaves are collected left to right, attributes are appended); and the extraction fold ties every chained sub-composition to its operand position (R-EXTRACTPOS; violated on the unchanged tree, known finding F16). Graph node ids are not decided. (E1 c14c_functors, constant shapes (2,3) (3,) (2,1) (3,), symbolic integer elements) a functor called with all operands or curried, a functor with attributes (transpose / sum / reshape), the compositions subtract*multiply and subtract*multiply*add in EVERY split of their 3 resp. 4 operands over the calls (remaining operands passed on in order), both parenthesisations of the chain, and chains through swap / dig2 / bury2 / dup give at every index the element of the direct view expression (order-sensitive in every operand). (E1 c14b_extract, constant and run-time shapes, symbolic integer elements) for views of depth 1..3 whose nested view is the first operand (unary / binary ufunc, indexing view, reduction, ufunc over indexing, reduction over ufunc, indexing over ufunc, reduction over an explicit broadcast_to, depth 3): the extracted function composition applied to the extracted operands has a value, the view's shape and the view's element at every index.",
+    claim="Every leaf functor callable (52) forwards its argument pack unchanged to view::<own name>; every functional:: object (126) binds the callable/op of its own name with the operand arity of the oracle table; the 73 ufunc aliases bind the op type of the same name; get_function_t<view X> hands back functional::X; the order facts of the functor machinery (R-ORDER: functors of f precede those of g in f*g, a functor's result precedes the operands still curried, leaves are collected left to right, attributes are appended); and the extraction fold ties every chained sub-composition to its operand position (R-EXTRACTPOS; violated on the unchanged tree, known finding F16). Graph node ids are not decided. (E1 c14c_functors, constant shapes (2,3) (3,) (2,1) (3,), symbolic integer elements) a functor called with all operands or curried, a functor with attributes (transpose / sum / reshape), the compositions subtract*multiply and subtract*multiply*add in EVERY split of their 3 resp. 4 operands over the calls (remaining operands passed on in order), both parenthesisations of the chain, and chains through swap / dig2 / bury2 / dup give at every index the element of the direct view expression (order-sensitive in every operand). (E1 c14b_extract, constant and run-time shapes, symbolic integer elements) for views of depth 1..3 whose nested view is the first operand (unary / binary ufunc, indexing view, reduction, ufunc over indexing, reduction over ufunc, indexing over ufunc, reduction over an explicit broadcast_to, depth 3): the extracted function composition applied to the extracted operands has a value, the view's shape and the view's element at every index. Depth 3 also THROUGH a binary ufunc whose first operand is a view built on another view (binary over indexing over unary, binary over unary over unary).",
     note=E2_NOTE,
     technique=E2_TECH,
     e1=[dict(tu="c14b_extract.cpp"), dict(tu="c14b_extract_rt.cpp"), dict(tu="c14c_functors.cpp", flags=["-DC14C_PART=1"]), dict(tu="c14c_functors.cpp", flags=["-DC14C_PART=2"]), dict(tu="c14c_functors.cpp", flags=["-DC14C_PART=3"])],
